@@ -12,6 +12,32 @@ COMMON_ASSUME = [
 ]
 
 REGISTRY = {
+    "C15": {
+        "level": "exploration",
+        "technique": "reference-model monitor in lockstep with the real ClusterState tablet map (hook), exhaustive (state, insert) transitions over a small token universe, random histories with maintenance, payload-decoder fuzz",
+        "rule": "cases = histories of tablet inserts (delivered as real custom payloads) and metadata refreshes (node removed / re-created / datacenter changed / unknown replica resolved or not / keyspace flipped / table dropped); exhaustive part: every (state, insert) transition over a 10-token universe in 5 placements (dense, spread, ending at i64::MAX, starting at i64::MIN+1, mixed) = 3.0M transitions, and every history up to the stated lengths; random part: long histories over full i64; decoder part: generated well-formed / truncated / mutated payloads; after EVERY step ranges are dumped and every universe token (+-1) is looked up through the public ReplicaLocator; "
+                "non-trivial and distinct = distinct (history prefix) / (state, insert) / payload",
+        "assumptions": COMMON_ASSUME + ["null or absent replica list, trailing bytes and negative counts in a payload are unspecified: only 'no panic' is asserted there"],
+        "quick": [{"variant": "dbg"}],
+        "thorough": [{"variant": "dbg", "timeout_t": 5400}],
+        "level_text": "After every step the dumped ranges must be sorted and pairwise disjoint and equal the model's live set; every queried token must be answered by the most recently learnt covering tablet or by nothing; the per-DC list must be the restriction of the full list; Node objects must be the current ones. Exhaustive over all single-step transitions of a 10-token universe.",
+        "level_note": "trusted: refmodel/tablets.rs (with a second literal log formulation as self-check); tablets are fed through the real RawTablet::from_custom_payload + ClusterState::update_tablets, refreshes through the real ClusterState::new_updated",
+        "design_ref": "DESIGN.md §4 C15",
+    },
+    "C18": {
+        "level": "exploration",
+        "technique": "multi-threaded stress of the real generator with clock override and pause point (hooks), offline per-thread/global log checker; Miri many-seeds and TSan variants; end-to-end timestamp capture at the mock node",
+        "rule": "part a: one case = one round of N threads (2..16) x M calls on one generator under one of 8 clock modes (real, stalled, repeated microsecond, backward steps of 1 us / 1 s / 1 h, before the epoch, mixed) and one of 4 pause policies between load and compare-exchange; non-trivial = the global order interleaves >= 2 threads; distinct = (mode, threads, calls, owner sequence of the global order); "
+                "part b: concurrent writes through a Session using the generator, timestamps collected by the mock node (distinct; explicit statement timestamps arrive unchanged for QUERY/EXECUTE/BATCH)",
+        "assumptions": COMMON_ASSUME + ["interleavings are sampled by the OS scheduler / Miri; CAS retries and owner switches observed are reported"],
+        "quick": [{"variant": "dbg", "part": "a", "scale": 0.25}, {"variant": "dbg", "part": "b"}],
+        "thorough": [{"variant": "dbg", "part": "a"}, {"variant": "dbg", "part": "b"},
+                     {"variant": "tsan", "part": "a", "scale": 0.2, "optional": True},
+                     {"variant": "miri", "part": "a", "optional": True, "miri_seeds": 16, "timeout_t": 3000}],
+        "level_text": "Every value returned in every round is logged per thread; offline each thread's sequence must be strictly increasing and all values pairwise distinct, under stalled, repeating and backward-stepping clocks and with forced preemption between the load and the compare-exchange. Sampled interleavings; Miri adds weak-memory and arbitrary preemption at tiny sizes, TSan runs unsuppressed.",
+        "level_note": "trusted: clock-override and pause hooks (no-ops unless installed); nothing is asserted about the relation to the clock",
+        "design_ref": "DESIGN.md §4 C18",
+    },
     "C19": {
         "level": "exploration",
         "technique": "poll-granularity schedule enumeration of the real merge channel with a counting waker (single thread, no runtime), re-entrant pause-point interleavings, multi-threaded stress with seeded pause points + offline log checker; Miri / TSan variants",
@@ -83,9 +109,11 @@ REGISTRY = {
                 "part b: histories = (n concurrent requests on ONE pool connection, response order class, cancellation plan per request, withheld answers of abandoned requests, second wave of requests, write-coalescing mode, prepared/unprepared) "
                 "against a mock node that echoes the id of each request; one evaluation = one client operation; non-trivial = every operation of a history with >= 2 concurrent requests; distinct = distinct (history seed, operation id, cancelled)",
         "assumptions": COMMON_ASSUME + ["thread/task interleavings are sampled (not enumerated); what was seen is reported as cancellation-stage and order classes"],
-        "quick": [{"variant": "dbg", "part": "b"}],
-        "thorough": [{"variant": "dbg", "part": "b"}],
-        "level_text": "Every successful result is checked to carry the id of its own request with an intact payload and to have been really sent by the node before it was delivered; the node flags any request arriving on a stream id it still owes an answer on (abandoned requests included); histories include more concurrent requests than stream ids. Interleavings are sampled: held on what was observed.",
+        "quick": [{"variant": "dbg", "part": "a"}, {"variant": "dbg", "part": "b"}],
+        "thorough": [{"variant": "dbg", "part": "a"}, {"variant": "dbg", "part": "b", "timeout_t": 5400},
+                     {"variant": "miri", "part": "a", "optional": True, "timeout_t": 3000},
+                     {"variant": "tsan", "part": "b", "scale": 0.2, "optional": True, "tsan_suppress": True}],
+        "level_text": "Part a: every operation of random and structured walks (incl. full exhaustion of all 32768 ids, late orphans, forced reuse) on the real handler map is compared with a reference state machine and the structure's invariants are walked. Part b: every successful result is checked to carry the id of its own request with an intact payload and to have been really sent by the node before it was delivered; the node flags any request arriving on a stream id it still owes an answer on (abandoned requests included); histories include more concurrent requests than stream ids. Interleavings are sampled: held on what was observed.",
         "level_note": "trusted: mock node + independent wire codec; cancellation stages are classified from the event log only; pause points (hook) only perturb timing",
         "design_ref": "DESIGN.md §4 C02",
     },
